@@ -500,7 +500,13 @@ impl Jwk {
     }
 
     if let Some(value) = self.key_ops() {
-      public.set_key_ops(value.iter().map(|op| op.invert()));
+      // Only a private key's operations need to be mapped to their public counterparts; projecting an already
+      // public key must not change it (`to_public` is idempotent).
+      if self.is_public() {
+        public.set_key_ops(value.iter().copied());
+      } else {
+        public.set_key_ops(value.iter().map(|op| op.invert()));
+      }
     }
 
     if let Some(value) = self.alg() {
